@@ -292,6 +292,7 @@ func TestNoScratchLeft(t *testing.T) {
 	if _, err := ValidateAPI(build(t, Options{SubFilter: PKCS7Detached}).Bytes); err != nil {
 		t.Fatal(err)
 	}
+	Cleanup()
 	ee, _ := os.ReadDir(os.TempDir())
 	for _, e := range ee {
 		if strings.HasPrefix(e.Name(), "sigdoc-certs-") {
